@@ -544,7 +544,7 @@ func ruleCLI(w *World, r *Report) {
 				var clsParam, errParam *ssa.Parameter
 				hf := helperCall.Call.StaticCallee()
 				for i, a := range helperCall.Call.Args {
-					if f, ok := a.(*ssa.Function); ok {
+					if f, ok := stripAllConv(a).(*ssa.Function); ok {
 						if shortName(f) == pkg+".RepairErrorMeansRepairNecessaryButNotPossible" {
 							clsOK = true
 							clsParam = hf.Params[i]
